@@ -179,7 +179,7 @@ func (r *Run) Report() int {
 			for _, k := range known {
 				if k.kind == "known" && k.prop == prop && k.obligation == o.Name {
 					matched = true
-					fmt.Printf("KNOWN-FINDING: property=%s %s\n", prop, k.text)
+					fmt.Printf("KNOWN-FINDING: %s\n", k.text) // k.text starts with property=<id>
 					knownSeen = append(knownSeen, o.Name)
 				}
 			}
